@@ -145,8 +145,9 @@ def q2_dequeue_sites(ctx, rep):
     rep.floor(R, "drop-oldest head pops", n_pop, 1)
     # the consumer takes one item at a time: exactly one receive site in the reducer closure
     # (nested closures included), in the loop header, and no other dequeue on its receiver
-    cl, _ = A.reducer_closure
-    fam = [b for b in ctx.prog.bodies if b.path == cl.path or (b.is_closure() and b.path.startswith(cl.path + "::"))]
+    cl = ctx.consumer_body()
+    reach0 = ctx.sync_reach([A.reducer_closure[0]])
+    fam = [b for b in ctx.prog.bodies if b.path in reach0 or (b.is_closure() and any(b.path.startswith(p_ + "::") for p_ in reach0))]
     n = 0
     for b in fam:
         for s in ctx.prog.sites(b):
@@ -398,7 +399,7 @@ def q7_head_of_queue(ctx, rep):
     A = ctx.A
     R = "Q7"
     from mirq.interp import Interp
-    cl, _ = A.reducer_closure
+    cl = ctx.consumer_body()
     I = Interp(ctx.prog)
     n = 0
     for s in ctx.prog.sites(cl):
